@@ -197,6 +197,7 @@ func init() {
 		Harnesses: []HarnessSpec{
 			{Dir: "gcs", Name: "ZZ_C13_members", Variant: "n<=2", Reach: []string{"end"}, Tweak: gcsCfg("maxn", 2)},
 			{Dir: "gcs", Name: "ZZ_C13_agree", Variant: "n<=1,q<=2", Reach: []string{"end"}, Tweak: gcsCfg("maxn", 1, "maxq_items", 2)},
+			{Dir: "gcs", Name: "ZZ_C13_members", Variant: "n<=2,items nil/empty/1 byte,P=19", Reach: []string{"end"}, Tweak: gcsCfg("maxn", 2, "itemlens", 1, "onlyp", 19)},
 			{Dir: "gcs", Name: "ZZ_C13_history", Variant: "two filters n=1, one query each", Reach: []string{"end"}, Tweak: gcsCfg()},
 			{Dir: "gcs", Name: "ZZ_C13_agree", Variant: "n<=2,q<=2", Tiers: "thorough", Reach: []string{"end"}, Tweak: gcsCfg("maxn", 2, "maxq_items", 2)},
 			{Dir: "gcs", Name: "ZZ_C13_members", Variant: "n<=3,allP", Tiers: "thorough", Reach: []string{"end"}, Tweak: gcsCfg("maxn", 3, "allp", 1)},
@@ -437,7 +438,7 @@ func init() {
 		"M < 2^40 and (N*M) >> P <= 2 (unary runs of at most 2 ones)",
 		"counterexamples are replayed against the real gcs code with SipHash pinned (build overlay) to the values the solver chose",
 	}, []string{"data sets larger than the tier bound; P values outside {0,1,7,8,9,19,31,32} in quick", "SipHash itself"},
-		"quick: N<=2 items (members), N<=1 with <=2 queries (agreement), two-filter history (any query on A, then all strategies on B; sync.Pool modelled as a nondeterministic LIFO), P in {0,1,7,8,9,19,31,32}, M symbolic", "thorough: N<=3 with all P in 0..32; agreement with N<=2")
+		"quick: N<=2 items of 2 bytes (members; also nil / empty / 1-byte items at P=19), N<=1 with <=2 queries (agreement), two-filter history (any query on A, then all strategies on B; sync.Pool modelled as a nondeterministic LIFO), P in {0,1,7,8,9,19,31,32}, M symbolic", "thorough: N<=3 with all P in 0..32; agreement with N<=2")
 	meta("C14", []string{
 		"64x64-bit products of two symbolic operands are a commutative uninterpreted function with the range lemma (product of bounded factors is bounded); fastReduction and math/bits.Mul64 are compared over the same four partial products",
 		"SipHash uninterpreted; fastReduction contract as in C13 for the encoding harness",
